@@ -28,6 +28,56 @@ CLASS_ROWS = dict(same="genuine", coinset_differs="s1_amt_plus1", meta_truncated
                   malformed="s1_count_noncanonical", trailing="trailing_byte")
 
 
+def crash_section(ctx, binary, edges):
+    """Process death between the steps of ActivateSnapshot, restart on the files left behind (specs/Snapshot/SnapshotCrash.tla)."""
+    files = {e["a"][1]: e["a"][2] for e in edges if e["a"][0] == "activate"}
+    r = ctx.tlc("Snapshot", "SnapshotCrash", "Crash_real.cfg" if ctx.tier == "quick" else "Crash_real_thorough.cfg", name="crash")
+    # the order "marker first" must break the invariant: re-derive the counterexample (a negative test of the model itself)
+    rr = ctx.tlc("Snapshot", "SnapshotCrash", "Crash_markerfirst.cfg", name="crash_markerfirst", expect_violation=True, emit=False)
+    if rr.violated != "RunsOnlyOnCompared":
+        raise vflib.InfraError("writing the marker before the comparison should violate RunsOnlyOnCompared in the model, got %s" % rr.violated)
+    ctx.extra["crash_counterexample_rederived"] = "marker-first order violates RunsOnlyOnCompared"
+    ce = vflib.load_emitted(r.emit_path)
+    out = collections.defaultdict(list)
+    for e in ce:
+        out[vflib.canon(e["f"])].append(e)
+    tests = []
+    for e in ce:
+        if e["a"][0] != "crash":
+            continue
+        if ctx.tier == "quick" and not e["f"]["blocks"] and e["a"][1] not in ("flushed", "added", "done"):
+            continue          # quick: the headers-only node only where it differs (marker present before the faked flags are on disk)
+        rs = [x for x in out[vflib.canon(e["t"])] if x["a"][0] == "restart"]
+        if len(rs) != 1:
+            raise vflib.InfraError("crash state without a unique restart")
+        t = rs[0]["t"]
+        bg = [x for x in out[vflib.canon(t)] if x["a"][0] == "bgcomplete"]
+        tests.append(dict(file=e["f"]["file"], F=files[e["f"]["file"]], blocks=e["f"]["blocks"], point=e["a"][1],
+                          exp=dict(started=t["started"], final=(bg[0]["t"]["snap"] if bg else t["snap"]), dir=t["dir"], marker=t["marker"], coins=t["coins"])))
+    points = collections.Counter((t["point"], t["exp"]["started"]) for t in tests)
+    for need in (("flushed", "single"), ("added", "adopted"), ("done", "adopted"), ("cleanup", "single"), ("added", "refused")):
+        if not points[need]:
+            raise vflib.InfraError("vacuity: no crash test %s -> %s" % need)
+    res = ctx.run_harness(binary, "crash", tests, name="crash")
+    fatal = [i for i in res["infos"] if "fatal" in i]
+    if fatal:
+        raise vflib.InfraError("snapshot adapter (crash): %s" % fatal[0]["fatal"])
+    s = res["summary"]
+    ctx.evaluations += int(s["steps"]); ctx.traces += int(s["tests"])
+    for t in tests:
+        ctx.nontrivial.add("crash:" + vflib.digest([t["file"], t["blocks"], t["point"]]))
+    ctx.extra["crash_restart"] = dict(tests=len(tests), crashes=int(s.get("crashes", 0)), not_reached=int(s.get("crashpoint_not_reached", 0)),
+                                      adopted=int(s.get("restart_adopted", 0)), single=int(s.get("restart_single", 0)), refused=int(s.get("restart_refused", 0)),
+                                      conservative=int(s.get("diverged_conservative", 0)), restart_result_deviations=int(s.get("restart_result_deviations", 0)),
+                                      leftover_deviations=int(s.get("leftover_deviations", 0)))
+    if int(s.get("crashes", 0)) < len(tests) * 3 // 4 and not res["mismatches"] and not res["aborts"]:
+        raise vflib.InfraError("most crash points were not reached: %s" % dict(s))
+    if not s.get("restart_adopted") and not res["mismatches"] and not res["aborts"]:
+        raise vflib.InfraError("vacuity: no restart adopted a snapshot chainstate")
+    vflib.report_mismatches(ctx, binary, "crash", res, adapter="snapshot", what_prefix="Snapshot crash/restart: ",
+                            key_fn=lambda m, case: "crash:" + vflib.digest([m.get("action"), (m.get("why") or "")[:60]]))
+
+
 def run(ctx):
     binary = ctx.build_adapter("snapshot")
     cfg = "MC_quick.cfg" if ctx.tier == "quick" else "MC_thorough.cfg"
@@ -135,6 +185,7 @@ def run(ctx):
             raise vflib.InfraError("vacuity: no random damage of class " + need)
     vflib.report_mismatches(ctx, binary, "flips", fres, args=[cpath], adapter="snapshot", what_prefix="Snapshot damage: ",
                             key_fn=lambda m, case: "flips:" + vflib.digest((m.get("why") or "")[:50]))
+    crash_section(ctx, binary, edges)
     ctx.assumptions += ["HASH_SERIALIZED is collision free on the files considered (the model's hash is injective)",
                         "a group whose count field disagrees with its records desynchronises the parser; whatever is then parsed is not the committed set",
                         "the coin codec (compressor, VARINT) is the library's on both sides (covered by C18)",
